@@ -170,6 +170,16 @@ CleanBucket ==
   /\ pending' = Tail(pending)
   /\ UNCHANGED <<nextE, gens, gsize, stale, cur, nextG, buckets, released, pc, got>>
 
+\* a wrong visit (Cache_split_mut.cfg substitutes it for CleanBucket; non-vacuity guard): the entries are unmapped but not
+\* marked deleted, so a loader that ends later still accounts its size for an entry nobody can reach
+CleanBucketMut ==
+  /\ pending # <<>>
+  /\ LET c == Head(pending) IN
+     /\ payload' = [payload EXCEPT ![c] = [k \in K |-> IF payload[c][k] # 0 /\ ent[payload[c][k]].gen \in stale THEN 0 ELSE payload[c][k]]]
+     /\ H("cleanbucket", c, 0, 0)
+  /\ pending' = Tail(pending)
+  /\ UNCHANGED <<ent, nextE, gens, gsize, stale, cur, nextG, buckets, released, pc, got>>
+
 CleanEmpty ==
   /\ Ops /\ Len(gens) > 1
   /\ gens' = SelectSeq(SubSeq(gens, 1, Len(gens) - 1), LAMBDA g : gsize[g] > 0) \o <<gens[Len(gens)]>>
